@@ -514,6 +514,30 @@ func init() {
 						if r1.String() != r2.String() {
 							fail(failure{Stream: "oracle", What: show(b+"+") + " and " + show(b+"-or-later") + " give different results", Case: &kase{Expr: b + "+", ExprHex: hx(b + "+"), Allowed: []string{id}, Extra: map[string]string{"other_expr": b + "-or-later"}}, Impl: r1.String(), Expected: r2.String()})
 						}
+						// the same in every letter case and position, on both sides
+						for cm := 0; cm < 3 && suf == "-or-later"; cm++ {
+							bc := caseMut(b, cm)
+							s1, s2 := bc+"+", bc+"-or-later"
+							for _, ctx := range []string{"%s", "(%s)", "MIT OR %s", "%s WITH " + exc, "ISC AND (%s OR MIT)"} {
+								e1, e2 := fmt.Sprintf(ctx, s1), fmt.Sprintf(ctx, s2)
+								res.Evaluations++
+								count("unlisted_base_contexts")
+								if v1, v2 := implValid(e1), implValid(e2); v1 != v2 {
+									fail(failure{Stream: "oracle", What: "the spellings " + show(s1) + " and " + show(s2) + " are not equally valid in the context " + ctx, Case: &kase{Expr: e1, ExprHex: hx(e1), Extra: map[string]string{"other_expr": e2}}, Impl: fmt.Sprint(v1), Expected: fmt.Sprint(v2)})
+									continue
+								}
+								for _, l := range [][]string{{id}, {b + "-or-later"}, {"MIT"}, {b + "-only", "ISC"}} {
+									if q1, q2 := implSat(e1, l), implSat(e2, l); q1.String() != q2.String() {
+										fail(failure{Stream: "oracle", What: "the spellings " + show(s1) + " and " + show(s2) + " give different results in the context " + ctx, Case: &kase{Expr: e1, ExprHex: hx(e1), Allowed: l, Extra: map[string]string{"other_expr": e2}}, Impl: q1.String(), Expected: q2.String()})
+									}
+								}
+							}
+							for _, e := range []string{id, b + "-or-later", b + "-only+", "MIT"} {
+								if q1, q2 := implSat(e, []string{s1}), implSat(e, []string{s2}); q1.String() != q2.String() {
+									fail(failure{Stream: "oracle", What: "the allowed entries " + show(s1) + " and " + show(s2) + " give different results", Case: &kase{Expr: e, ExprHex: hx(e), Allowed: []string{s1}, Extra: map[string]string{"other_list": hxl([]string{s2})}}, Impl: q1.String(), Expected: q2.String()})
+								}
+							}
+						}
 					}
 				}
 			}
@@ -576,6 +600,12 @@ func init() {
 				pairs = append(pairs, [2]*term{mkTerm(id, "", true, "", cm), mkTerm(id, "-or-later", false, "", cm)},
 					[2]*term{mkTerm(id, "", false, "", cm), mkTerm(id, "-only", false, "", cm)})
 			}
+			// consequences of the two pairs taken together: X-only+ = X+ = X-or-later = X-or-later+
+			derived := [][2]*term{
+				{mkTerm(id, "-only", true, "", -1), mkTerm(id, "-or-later", false, "", -1)},
+				{mkTerm(id, "-only", true, "", -1), mkTerm(id, "", true, "", -1)},
+				{mkTerm(id, "-or-later", true, "", -1), mkTerm(id, "-only", true, "", -1)},
+			}
 			if isActive {
 				for _, pr := range pairs {
 					for _, t := range pr {
@@ -598,6 +628,18 @@ func init() {
 					for i := 0; i < 3; i++ {
 						partners = append(partners, mkTerm(pick(fam), "", rng.Intn(2) == 0, "", -1))
 					}
+				}
+				// the partner itself in each of its '+'-spellings (a range lookup that knows only some of them)
+				f := pick(fam)
+				for _, sp := range []*term{mkTerm(f, "-or-later", false, "", -1), mkTerm(f, "-only", true, "", -1), mkTerm(f, "-only", false, "", -1), mkTerm(f, "-or-later", true, "", -1)} {
+					if !strings.HasSuffix(f, "-only") && !strings.HasSuffix(f, "-or-later") && implValid(sp.text) {
+						partners = append(partners, sp)
+					}
+				}
+			}
+			for _, pr := range derived {
+				if implValid(pr[0].text) && implValid(pr[1].text) && !strings.HasSuffix(id, "-only") && !strings.HasSuffix(id, "-or-later") {
+					pairs = append(pairs, pr)
 				}
 			}
 			for _, pr := range pairs {
